@@ -1,0 +1,11 @@
+//go:build verif
+
+package auth
+
+// Verification hooks: access to the unexported login digest functions. Add-only; absent without the tag.
+
+func AuthDigestVerif(serverID string, sharedSecret, publicKey []byte) string {
+	return authDigest(serverID, sharedSecret, publicKey)
+}
+
+func TwosComplementVerif(p []byte) []byte { return twosComplement(p) }
